@@ -224,7 +224,10 @@ func upgradeMassDBFile(sk *SpaceKeeper) error {
 			return
 		}
 		// make new filename
-		newFilename := fmt.Sprintf("%d_%s_%d%s.massdb", ordinal, args[0], bitLength, tagA)
+		// use the canonical (lower case) key encoding of the current naming scheme: the
+		// legacy names were upper case, and a file renamed with an upper case key is not
+		// found again under the name the plot database opens
+		newFilename := fmt.Sprintf("%d_%s_%d%s.massdb", ordinal, hex.EncodeToString(pubKey.SerializeCompressed()), bitLength, tagA)
 		newFilepath := filepath.Join(dir, newFilename)
 		if err = os.Rename(filePath, newFilepath); err != nil {
 			logging.CPrint(logging.ERROR, "fail to rename massdb",
